@@ -327,6 +327,10 @@ func engineFor(prop string) Engine {
 		return &multiEngine{parts: []Engine{&containerEngine{}, &graphEngine{}}}
 	case "C19":
 		return &graphEngine{}
+	case "C17":
+		return &collEngine{}
+	case "C20":
+		return &modEngine{}
 	}
 	return nil
 }
